@@ -15,12 +15,37 @@ def mk_num(n):
     if kind == "float": return int(a) / int(b)
     return Decimal(int(a)) / Decimal(int(b))
 
+def cunit(units, spec):
+    u = None
+    for i, e in spec:
+        f = units[i] ** e if e != 1 else units[i]
+        u = f if u is None else u * f
+    return u
+
 def run(data):
+    import concurrent.futures
+    pool = concurrent.futures.ThreadPoolExecutor(max_workers=1)      # one long-lived second thread, used with sequential hand-offs
     units = []
     out = []
     for op in data["ops"]:
         k = op[0]
         try:
+            if k == "scale":
+                # a scale over unit i with its zero point at `zero` of unit i (like Celsius over kelvin)
+                _, i, zero = op
+                n = len(units)
+                units.append(units[i].dimension.scale(mk_num(zero) * units[i], f"vfm{n}", f"vfm{n}"))
+                out.append(None); continue
+            if k in ("cquery", "tquery"):
+                if k == "cquery":
+                    _, m, a_spec, b_spec = op
+                    f = lambda: Quantity(mk_num(m), cunit(units, a_spec)).in_unit(cunit(units, b_spec))
+                    r = f()
+                else:
+                    _, m, i, e, j, f_ = op
+                    a = units[i] ** e if e != 1 else units[i]; b = units[j] ** f_ if f_ != 1 else units[j]
+                    r = pool.submit(lambda: Quantity(mk_num(m), a).in_unit(b)).result()
+                out.append({"m": implib.num(r.magnitude)}); continue
             if k == "unit":
                 n = len(units)
                 units.append(Dimension._by_name[op[1]].unit(f"vfm{n}", f"vfm{n}"))
